@@ -635,18 +635,19 @@ def run(case):
                     if not op["recs"]:
                         return None
                     op["recs"] = op["recs"][:1]
-            if op["type"] == "SOA" and op["recs"]:
-                op["recs"] = op["recs"][:1]
+            if op["type"] in ("SOA", "CNAME", "DNAME", "NSEC") and op["recs"]:
+                op["recs"] = op["recs"][-1:]  # an rdataset of a singleton type cannot hold more than one record
         return op
 
     def model_run(t, ops, count):
         """run ops on a fresh model transaction -> (mt, [(op, want, state_after)])"""
         mt = model.begin(t["replacement"])
         out = []
-        for op in ops:
+        for src, op in enumerate(ops):
             op = resolve(op)
             if op is None:
                 continue
+            op["src"] = src
             name = op["op"]
             if name in ("add", "replace") and not op["recs"]:
                 if name == "replace" or op["form"] == "rrset":
@@ -758,6 +759,60 @@ def run(case):
             flags["abort_with_writes"] = True
         return len(steps)
 
+    def veto_run(ti, t, k):
+        """exception raised INSIDE operation k by a registered check_put_rdataset /
+        check_delete_rdataset / check_delete_name hook (documented: "the check function should
+        raise an exception if it objects"): the vetoed operation has no effect, the exception
+        leaves the with block unchanged and the zone is as before"""
+        mt, steps = model_run(t, t["ops"][: k + 1], False)
+        if not steps or steps[-1][0]["src"] != k or steps[-1][0]["op"] not in MUTATORS:
+            return False
+        before = model.content
+        last_op = steps[-1][0]
+        state_before = steps[-2][2] if len(steps) > 1 else None
+        fired = False
+        for Z in zones:
+            ids = Z.ids()
+            where = f"txn{ti} veto@{k}"
+            inj = _Injected(f"veto in op {k}")
+            armed = [False]
+
+            def hook(*a):
+                if armed[0]:
+                    raise inj
+
+            txn = None
+            try:
+                with Z.zone.writer(t["replacement"]) as txn:
+                    txn.check_put_rdataset(hook)
+                    txn.check_delete_rdataset(hook)
+                    txn.check_delete_name(hook)
+                    real_ops(Z, txn, steps[:-1], where, False)
+                    pre = ZU.extract_txn(txn, Z.origin)
+                    armed[0] = True
+                    try:
+                        _real_call(Z, txn, last_op)
+                    except _Injected as e:
+                        if e is not inj:
+                            raise Violation("atomicity", f"{Z.label} {where}: a different exception object came out of the operation", "exc-identity")
+                        fired = True
+                        post = ZU.extract_txn(txn, Z.origin)
+                        if post != pre:
+                            raise Violation("atomicity", f"{Z.label} {where}: vetoed {last_op} changed the transaction: {ZU.diff(post, pre)}", f"{Z.kind}:veto:{last_op['op']}")
+                    armed[0] = False
+                    raise inj
+            except _Injected as e:
+                if e is not inj:
+                    raise Violation("atomicity", f"{Z.label} {where}: a different exception object came out of the with block", "exc-identity")
+            else:
+                raise Violation("atomicity", f"{Z.label} {where}: the injected exception was swallowed by the with block", "exc-swallowed")
+            Z.check_published(before, where)
+            if Z.ids() != ids:
+                raise Violation("atomicity", f"{Z.label} {where}: version ids {ids} -> {Z.ids()} after a vetoed operation", f"{Z.kind}:ids")
+        if fired:
+            classes.add("veto-fired")
+        return fired
+
     def final_run(ti, t):
         mt, steps = model_run(t, t["ops"], True)
         ending = t["ending"]
@@ -840,6 +895,7 @@ def run(case):
     def reader_check(ti, t):
         """a reader sees the committed content, refuses every mutator, then refuses everything"""
         soa = (6, 0) in model.content.get(ORIGIN_KEY, {})
+        _, own_steps = model_run(t, t["ops"], False)
         for zi, Z in enumerate(zones):
             where = f"txn{ti} reader"
             r = Z.zone.reader()
@@ -851,8 +907,7 @@ def run(case):
                     raise Violation("lifecycle", f"{Z.label} {where}: changed() of a reader is True", "reader-changed")
                 _sweep(Z, r, dns.transaction.ReadOnly, where, mutators_only=True, soa_present=soa)
                 # the transaction's own mutators, in their own argument forms
-                _, steps = model_run(t, t["ops"], False)
-                for op, _, _, _ in steps:
+                for op, _, _, _ in own_steps:
                     if op["op"] in ("add", "replace", "delete", "delete_exact"):
                         go, _, raw = _real_call(Z, r, op)
                         if go != "ReadOnly":
@@ -876,6 +931,8 @@ def run(case):
         for k in range(len(t["ops"]) + 1):
             crash_run(ti, t, k)
             ncrash += 1
+        for k in range(len(t["ops"])):
+            veto_run(ti, t, k)
         final_run(ti, t)
         if t["reader"]:
             reader_check(ti, t)
@@ -900,14 +957,21 @@ _SERIALS = [1, 2, 0, 2**31 - 1, 2**31, 2**32 - 1, 2**32 - 2, 2024010101]
 _NAME_IDX = st.sampled_from([0, 0, 1, 2, 2, 2, 3, 3, 4, 4, 5, 5, 5])
 
 
+_RARE = [None] * 33 + [0, 1, 2, 3, 4, 5, 6]
+_KINDS = (
+    ["add"] * 7 + ["replace"] * 2 + ["delete"] * 6 + ["delete_exact"] * 3 + ["update_serial"] * 2
+    + ["get", "get", "get_node", "name_exists", "iterate_names", "iterate_rdatasets", "changed"]
+)
+
+
 @st.composite
-def _op(draw, types):
-    kind = draw(st.sampled_from(
-        ["add"] * 6 + ["replace"] * 2 + ["delete"] * 5 + ["delete_exact"] * 3 + ["update_serial"] * 2
-        + ["get", "get", "get_node", "name_exists", "iterate_names", "iterate_rdatasets", "changed"]
-    ))
-    rare = draw(st.integers(0, 39))
-    op = {"op": kind, "spell": draw(st.integers(0, 3)), "upper": draw(st.integers(0, 4)) == 0}
+def _op(draw, types, prev):
+    """prev: (name, type, recs) targets of earlier operations of the case; an operation re-uses one
+    of them with probability ~1/2 so that add-after-delete, last-record deletion and exact
+    deletes of what was just added happen constantly"""
+    kind = draw(st.sampled_from(_KINDS))
+    rare = draw(st.sampled_from(_RARE))
+    op = {"op": kind, "spell": draw(st.sampled_from([0, 1, 2, 3])), "upper": draw(st.sampled_from([False] * 4 + [True]))}
     if kind == "update_serial":
         op["value"] = draw(st.sampled_from([1, 1, 1, 0, 2, 7, 2**31 - 1, 2**31, 2**32 - 1, -1]))
         op["relative"] = draw(st.sampled_from([True, True, False]))
@@ -919,10 +983,16 @@ def _op(draw, types):
         return op
     if kind in ("iterate_names", "iterate_rdatasets", "changed"):
         return op
-    op["name"] = N_OUT if rare == 1 else draw(_NAME_IDX)
+    echo = None
+    if prev and draw(st.sampled_from([True, False])):
+        echo = prev[draw(st.integers(0, len(prev) - 1))]
+    op["name"] = N_OUT if rare == 1 else (echo[0] if echo else draw(_NAME_IDX))
     if kind in ("get_node", "name_exists"):
         return op
-    tname = draw(st.sampled_from(types))
+    if echo and draw(st.sampled_from([True, True, False])):
+        tname = echo[1]
+    else:
+        tname = draw(st.sampled_from([x for x in types if x != "SOA"] * 3 + ["SOA"]))
     op["type"] = tname
     op["textual"] = draw(st.booleans())
     if kind == "get":
@@ -930,14 +1000,17 @@ def _op(draw, types):
         if TYPES[tname][2]:
             op["form"] = draw(st.sampled_from(["type_covers", "type_covers", "type"]))
         return op
-    nrec = draw(st.sampled_from([1, 1, 1, 2, 3]))
-    op["recs"] = draw(st.lists(st.integers(0, 2), min_size=nrec, max_size=nrec))
+    if echo and echo[1] == tname and echo[2] and draw(st.sampled_from([True, True, False])):
+        op["recs"] = list(echo[2])
+    else:
+        nrec = draw(st.sampled_from([1, 1, 1, 2, 3]))
+        op["recs"] = draw(st.lists(st.integers(0, 2), min_size=nrec, max_size=nrec))
     op["ttl"] = draw(st.sampled_from(_TTLS))
     if kind in ("add", "replace"):
         op["form"] = draw(st.sampled_from(PUT_FORMS))
         if tname == "SOA":
             # mostly at the apex (elsewhere it is the documented ValueError)
-            if draw(st.integers(0, 5)):
+            if draw(st.sampled_from([True] * 5 + [False])):
                 op["name"] = 0
             if rare == 2:
                 op["soa_other"] = True
@@ -951,8 +1024,8 @@ def _op(draw, types):
             op["form"] = "type_covers"
         if rare == 4 and op["form"] in ("rdataset", "rrset"):
             op["recs"] = []
-    if rare == 5 and op["form"] in ("rdataset", "rrset", "ttl_rdata", "rdata") and op["recs"] and tname in ("TXT", "A", "MX", "NS"):
-        op["wrongclass"] = tname != "A"  # class-3 'A' has another wire format: keep to class-independent types
+    if rare == 5 and op["form"] in ("rdataset", "rrset", "ttl_rdata", "rdata") and op["recs"] and tname in ("TXT", "MX", "NS"):
+        op["wrongclass"] = True  # class-independent types only (class-3 'A' has another wire format)
     if rare == 6 and op["form"] in ("rdataset", "rdata", "ttl_rdata", "type_covers") and op["recs"] and tname != "SOA":
         op["extra"] = True
     if op["form"] == "rrset":
@@ -961,25 +1034,31 @@ def _op(draw, types):
 
 
 @st.composite
-def _txn(draw, types, max_ops):
-    ops = draw(st.lists(_op(types), min_size=0, max_size=max_ops))
+def _txn(draw, types, max_ops, prev):
+    n = draw(st.sampled_from([0, 1, 2, 3, 4, 5, 6, 6, 7, 8, 8, 9, 10, 11, 12, 12]))
+    ops = []
+    for _ in range(n):
+        op = draw(_op(types, prev))
+        ops.append(op)
+        if op["op"] in ("add", "replace", "delete", "delete_exact") and op["name"] != N_OUT:
+            prev.append((op["name"], op["type"], list(op.get("recs", []))))
     return {
-        "replacement": draw(st.integers(0, 5)) == 0,
+        "replacement": draw(st.sampled_from([False] * 7 + [True])),
         "ops": ops,
         "ending": draw(st.sampled_from(["commit", "commit", "commit", "with", "with", "rollback", "with_commit", "with_rollback", "raise"])),
         "k": draw(st.integers(0, 12)),
         "exc": draw(st.integers(0, 1)),
-        "reader": draw(st.integers(0, 2)) == 0,
+        "reader": draw(st.sampled_from([False, False, True])),
     }
 
 
 @st.composite
 def histories(draw, max_txns, max_ops):
     # choices that shape the whole case are drawn first
-    sel = draw(st.lists(st.integers(0, len(OTHER_TYPES) - 1), min_size=4, max_size=4, unique=True))
+    sel = draw(st.lists(st.integers(0, len(OTHER_TYPES) - 1), min_size=3, max_size=3, unique=True))
     types = ["CNAME", "SOA"] + sorted(set(OTHER_TYPES[i] for i in sel))
     serial0 = draw(st.sampled_from(_SERIALS))
-    init = draw(st.integers(0, 2)) != 0
+    init = draw(st.sampled_from([True, True, False]))
     ctx = {"origin": list(ORIGIN_LABELS), "pool": [[b"www", b"example", b""], [b"ns1", b"example", b""], [b"Ent", b"EXAMPLE", b""]]}
     pool = {}
     for tname in types:
@@ -993,7 +1072,8 @@ def histories(draw, max_txns, max_ops):
                 w[-20:-16] = draw(st.sampled_from(_SERIALS)).to_bytes(4, "big")
             wires.append(bytes(w).hex())
         pool[tname] = wires
-    txns = draw(st.lists(_txn(types, max_ops), min_size=1, max_size=max_txns))
+    prev = []
+    txns = [draw(_txn(types, max_ops, prev)) for _ in range(draw(st.sampled_from(list(range(1, max_txns + 1)))))]
     return {"serial0": serial0, "init": init, "pool": pool, "txns": txns}
 
 
@@ -1004,7 +1084,8 @@ def parts(tier):
             "histories",
             run,
             strategy=histories(4, max_ops),
-            n={"quick": 400, "thorough": 16 * 4000},
+            n={"quick": 3200, "thorough": 32000},
+            shards={"quick": 16, "thorough": 16},
             require={
                 "abort-with-prior-writes": 100,
                 "last-record-deleted-then-recreated": 30,
